@@ -554,6 +554,8 @@ def run_c02(prop, tier):
         from lib import catalog
         req = "R:nosv:" + catalog.load_events()["nosv"]["version"]
         mjobs = [list(t) for k in (1, 2, 3) for t in itertools.product(("as", "af", "e0", "f", req), repeat=k) if "as" in t or "af" in t]
+        # string, boolean and JSON attributes, read back at once and found in the final metadata
+        mjobs += [list(t) for k in (1, 2, 3) for t in itertools.product(("at", "as", "af"), repeat=k) if "at" in t]
         # metadata much larger than usual: a 6000-character attribute, 300 more CPUs
         mjobs += [list(t) for k in (1, 2) for t in itertools.product(("ab", "ac", "af", "as"), repeat=k) if "ab" in t or "ac" in t]
 
@@ -567,6 +569,18 @@ def run_c02(prop, tier):
                 got = meta.get("verif", {}).get("a")
                 if (sets and got != sets[-1]) or (not sets and got is not None):
                     msg = "attribute verif.a is %r in the final metadata, last set to %r" % (got, sets[-1] if sets else None)
+                gl = [l for l in log if l.startswith("G ")]
+                for l in gl:
+                    n = int(l.split()[1])
+                    before = [x for x in sets if x < n]
+                    want_g = "G %d has=10 s=text-%d b=%d d=%s j={\"k\":[%d,2,{\"z\":null}]}" % (n, n, n & 1, ("%g" % before[-1]) if before else "-1", n)
+                    if msg is None and l != want_g:
+                        msg = "attributes read back right after they were set: %r, expected %r" % (l, want_g)
+                if gl and msg is None:
+                    n = int(gl[-1].split()[1])
+                    v = meta.get("verif", {})
+                    if v.get("s") != "text-%d" % n or v.get("b") != bool(n & 1) or v.get("j") != {"k": [n, 2, {"z": None}]}:
+                        msg = "final metadata holds verif = %r, last set to text-%d / %r / {k: [%d, 2, {z: null}]}" % (v, n, bool(n & 1), n)
                 cpus = sorted(set((c.get("index"), c.get("phyid")) for c in meta.get("ovni", {}).get("loom_cpus", [])))   # (adding a CPU twice is not judged)
                 want = [(0, 0)] + ([(i, i + 2) for i in range(1, 301)] if "ac" in prog else [])
                 if msg is None and cpus != want:
